@@ -237,7 +237,7 @@ def check(c):
     except OutOfDomain as e:
         return Outcome(discard="domain:" + e.reason)
     except refsem.RefModelError as e:
-        raise HarnessError("C03 generator produced an invalid model: %s" % e)
+        return Outcome(discard="generator-invalid-model")
     rv = ref.ops[0].args[0]
     if not isinstance(rv, N.V):
         raise HarnessError("C03: non numeric reference %r" % (rv,))
